@@ -735,9 +735,15 @@ class SequenceConverter(t.Generic[FromDataT], Converter[t.Sequence[FromDataT]]):
         """See [`Converter.expected`][pane.converters.Converter.expected]"""
         return f"{pluralize('sequence', plural)} of {self.v_conv.expected(True)}"
 
+    def _is_sequence(self, val: t.Any) -> bool:
+        """Return whether `val` is sequence data, or an already converted set (`try_convert` is idempotent)"""
+        if data_is_sequence(val):
+            return True
+        return isinstance(val, (set, frozenset)) and self.constructor in (set, frozenset)
+
     def try_convert(self, val: t.Any) -> t.Sequence[FromDataT]:
         """See [`Converter.try_convert`][pane.converters.Converter.try_convert]"""
-        if not data_is_sequence(val):
+        if not self._is_sequence(val):
             raise ParseInterrupt
         try:
             return self.constructor(self.v_conv.try_convert(v) for v in val)  # type: ignore
@@ -746,7 +752,7 @@ class SequenceConverter(t.Generic[FromDataT], Converter[t.Sequence[FromDataT]]):
 
     def collect_errors(self, val: t.Any) -> t.Union[None, WrongTypeError, ProductErrorNode]:
         """See [`Converter.collect_errors`][pane.converters.Converter.collect_errors]"""
-        if not data_is_sequence(val):
+        if not self._is_sequence(val):
             return WrongTypeError(self.expected(), val)
 
         nodes: t.Dict[t.Union[int, str], ErrorNode] = {}
